@@ -37,6 +37,56 @@ pub fn dispatch_impl(toks: &[&str]) -> Option<String> {
             let y = f64::from_bits(u64::from_str_radix(b, 16).unwrap()) as f32;
             if y.is_nan() { "nan".into() } else { format!("{:x}", y.to_bits()) }
         }
+        ["castf32f64", b] => {
+            let y = f64::from(f32::from_bits(u32::from_str_radix(b, 16).unwrap()));
+            if y.is_nan() { "nan".into() } else { format!("{:x}", y.to_bits()) }
+        }
+        ["ceilf64", b] => {
+            let y = f64::from_bits(u64::from_str_radix(b, 16).unwrap()).ceil();
+            if y.is_nan() { "nan".into() } else { format!("{:x}", y.to_bits()) }
+        }
+        ["ceilf32", b] => {
+            let y = f32::from_bits(u32::from_str_radix(b, 16).unwrap()).ceil();
+            if y.is_nan() { "nan".into() } else { format!("{:x}", y.to_bits()) }
+        }
+        ["usizef64", b] => format!("{}", f64::from_bits(u64::from_str_radix(b, 16).unwrap()) as usize),
+        ["fop64", op, a, b] => {
+            let x = f64::from_bits(u64::from_str_radix(a, 16).unwrap());
+            let y = f64::from_bits(u64::from_str_radix(b, 16).unwrap());
+            let num = |z: f64| if z.is_nan() { "nan".to_string() } else { format!("{:x}", z.to_bits()) };
+            // the NaN the model sees is always the canonical one
+            let canon = |z: f64| if z.is_nan() { f64::NAN } else { z };
+            match *op {
+                "add" => num(x + y),
+                "sub" => num(x - y),
+                "mul" => num(x * y),
+                "div" => num(x / y),
+                "sqrt" => num(x.sqrt()),
+                "abs" => num(x.abs()),
+                "neg" => num(-x),
+                "cmp" => format!("{} {} {} {}", x < y, x <= y, x == y, canon(x).total_cmp(&canon(y)) == std::cmp::Ordering::Less),
+                "minmax" => format!("{} {}", num(x.min(y)), num(x.max(y))),
+                _ => return None,
+            }
+        }
+        ["fop32", op, a, b] => {
+            let x = f32::from_bits(u32::from_str_radix(a, 16).unwrap());
+            let y = f32::from_bits(u32::from_str_radix(b, 16).unwrap());
+            let num = |z: f32| if z.is_nan() { "nan".to_string() } else { format!("{:x}", z.to_bits()) };
+            let canon = |z: f32| if z.is_nan() { f32::NAN } else { z };
+            match *op {
+                "add" => num(x + y),
+                "sub" => num(x - y),
+                "mul" => num(x * y),
+                "div" => num(x / y),
+                "sqrt" => num(x.sqrt()),
+                "abs" => num(x.abs()),
+                "neg" => num(-x),
+                "cmp" => format!("{} {} {} {}", x < y, x <= y, x == y, canon(x).total_cmp(&canon(y)) == std::cmp::Ordering::Less),
+                "minmax" => format!("{} {}", num(x.min(y)), num(x.max(y))),
+                _ => return None,
+            }
+        }
         ["casti32f32", n] => format!("{:x}", (n.parse::<i32>().unwrap() as f32).to_bits()),
         _ => return None,
     })
